@@ -94,10 +94,12 @@ class IncludeNode(Node):
         namespace: dict[str, object] = dict(arg.evaluate(context) for arg in self.args)
 
         character_count = 0
+        # Like keyword arguments, the bound variable is resolved in the scope of the
+        # include tag, before keyword arguments are in scope.
+        val = self.var.evaluate(context) if self.var else None
 
         with context.extend(namespace, template=template):
             if self.var:
-                val = self.var.evaluate(context)
                 key = self.alias or template.name.split(".")[0]
 
                 if isinstance(val, Sequence) and not isinstance(val, str):
@@ -139,10 +141,12 @@ class IncludeNode(Node):
         )
 
         character_count = 0
+        # Like keyword arguments, the bound variable is resolved in the scope of the
+        # include tag, before keyword arguments are in scope.
+        val = await self.var.evaluate_async(context) if self.var else None
 
         with context.extend(namespace, template=template):
             if self.var:
-                val = await self.var.evaluate_async(context)
                 key = self.alias or template.name.split(".")[0]
 
                 if isinstance(val, Sequence) and not isinstance(val, str):
